@@ -26,6 +26,8 @@ type c05Gen struct {
 	retOK   bool // inside a function body: ফেরত statements may be generated
 	nRet    int
 	deepRet bool // a return was placed at nesting depth >= 1
+	fnDecls bool // statement lists may hold function declarations (random generation only: keeps the enumerations as they are)
+	nFn     int
 	b       strings.Builder
 }
 
@@ -81,6 +83,15 @@ func (g *c05Gen) stmt(ind string, depth int, ctrs []string, inLoop bool, sinceLo
 	switch k {
 	case 0:
 		g.b.WriteString(ind + g.tag() + "\n")
+		if g.fnDecls && braced && g.pick("fndecl", 4) == 0 {
+			// a function declared (and called) right here, between the jumps of the surrounding loops
+			g.nFn++
+			g.nTag++
+			fmt.Fprintf(&g.b, "%s%s h%d(v) { %s \"t%d\"; %s v; }\n", ind, bn.KwFun, g.nFn, bn.KwPrint, g.nTag, bn.KwReturn)
+			if g.pick("fncall", 2) == 0 {
+				fmt.Fprintf(&g.b, "%sh%d(%d);\n", ind, g.nFn, g.nFn)
+			}
+		}
 		if len(ctrs) > 0 && g.pick("showctr", 2) == 0 {
 			// shown as a separate statement only where a statement list is allowed
 			if braced {
@@ -393,7 +404,7 @@ func TestC05(t *testing.T) {
 			n = 40000
 		}
 		c.Rapid("rand-skeletons", n, func(rt *rapid.T, s *Sub) {
-			g := &c05Gen{budget: rapid.IntRange(3, 25).Draw(rt, "budget")}
+			g := &c05Gen{budget: rapid.IntRange(3, 25).Draw(rt, "budget"), fnDecls: rapid.Bool().Draw(rt, "functionDeclarations")}
 			g.pick = func(label string, n int) int { return rapid.IntRange(0, n-1).Draw(rt, label) }
 			src := g.program(rapid.IntRange(1, 4).Draw(rt, "depth"), rapid.IntRange(1, 3).Draw(rt, "top"))
 			c.c05Program(s, "rand-skeletons", place(src, drawPlacement(rt)), g.deepBrk)
